@@ -355,6 +355,16 @@ def run(ctx):
                        {"op": "refresh", "token": ["refresh", 0], "cred": ["c1", "s1"], "scope": None},
                        {"op": "access", "token": ["access", 1], "required": ["a b"]}]
                 check_seq(ctx, ops, "golden-revoke")
+    # the same token revoked twice, by either string and either hint: the second revocation is not a no-op
+    for by1, h1 in (("access", "access_token"), ("access", None), ("refresh", "refresh_token"), ("refresh", None)):
+        for by2, h2 in (("access", "access_token"), ("access", None), ("refresh", "refresh_token"), ("refresh", None)):
+            ops = [issue, {"op": "revoke", "token": [by1, 0], "cred": ["c1", "s1"], "hint": h1},
+                   {"op": "revoke", "token": [by2, 0], "cred": ["c1", "s1"], "hint": h2},
+                   {"op": "access", "token": ["access", 0], "required": "a"},
+                   {"op": "introspect", "token": ["refresh", 0], "cred": ["c1", "s1"], "hint": "refresh_token"},
+                   {"op": "refresh", "token": ["refresh", 0], "cred": ["c1", "s1"], "scope": None},
+                   {"op": "introspect", "token": ["access", 0], "cred": ["c1", "s1"], "hint": None}]
+            check_seq(ctx, ops, "golden-revoke-twice")
     for cred in CREDS:
         for sc in (None, "a", "a b c", "b"):
             ops = [issue, {"op": "refresh", "token": ["refresh", 0], "cred": cred, "scope": sc},
